@@ -633,28 +633,8 @@ impl ToplevelDefinition {
 
     pub(crate) fn apply_tagging_environment(&mut self, environment: &TaggingEnvironment) {
         if let (env, ToplevelDefinition::Type(ty)) = (environment, self) {
-            ty.tag = ty.tag.as_ref().map(|t| AsnTag {
-                environment: env + &t.environment,
-                tag_class: t.tag_class,
-                id: t.id,
-            });
-            match &mut ty.ty {
-                ASN1Type::Sequence(s) | ASN1Type::Set(s) => s.members.iter_mut().for_each(|m| {
-                    m.tag = m.tag.as_ref().map(|t| AsnTag {
-                        environment: env + &t.environment,
-                        tag_class: t.tag_class,
-                        id: t.id,
-                    });
-                }),
-                ASN1Type::Choice(c) => c.options.iter_mut().for_each(|o| {
-                    o.tag = o.tag.as_ref().map(|t| AsnTag {
-                        environment: env + &t.environment,
-                        tag_class: t.tag_class,
-                        id: t.id,
-                    });
-                }),
-                _ => (),
-            }
+            ty.tag = ty.tag.as_ref().map(|t| t.in_environment(env));
+            ty.ty.apply_tagging_environment(env);
         }
     }
 
@@ -1293,6 +1273,39 @@ pub struct AsnTag {
     pub environment: TaggingEnvironment,
     pub tag_class: TagClass,
     pub id: u64,
+}
+
+impl AsnTag {
+    /// The tag as it applies in a module with the given tagging default.
+    fn in_environment(&self, env: &TaggingEnvironment) -> AsnTag {
+        AsnTag {
+            environment: env + &self.environment,
+            tag_class: self.tag_class,
+            id: self.id,
+        }
+    }
+}
+
+impl ASN1Type {
+    /// Applies the module's tagging default to the tags of all components,
+    /// alternatives and elements, at every nesting depth.
+    fn apply_tagging_environment(&mut self, env: &TaggingEnvironment) {
+        match self {
+            ASN1Type::Sequence(s) | ASN1Type::Set(s) => s.members.iter_mut().for_each(|m| {
+                m.tag = m.tag.as_ref().map(|t| t.in_environment(env));
+                m.ty.apply_tagging_environment(env);
+            }),
+            ASN1Type::Choice(c) => c.options.iter_mut().for_each(|o| {
+                o.tag = o.tag.as_ref().map(|t| t.in_environment(env));
+                o.ty.apply_tagging_environment(env);
+            }),
+            ASN1Type::SequenceOf(s) | ASN1Type::SetOf(s) => {
+                s.element_tag = s.element_tag.as_ref().map(|t| t.in_environment(env));
+                s.element_type.apply_tagging_environment(env);
+            }
+            _ => (),
+        }
+    }
 }
 
 impl From<((Option<&str>, u64), Option<TaggingEnvironment>)> for AsnTag {
